@@ -8,7 +8,7 @@ CLAIMS = {
              note="Trusted: TLC, the Python concretisation (positions -> nanosecond bounds), UTC. Bounded: <= 5 interval ids over 2 year files, 2 offset classes, <= 2 records per class; quick replays a cost-bounded seeded sample of the emitted cases for 1Sec, 1Min, 1H, 1D, thorough for all 11 timeframes. 1D rows on Jan 1 and timestamps in the 'one second late' window are storage defects of C08/C09 and are avoided."),
  "C12": dict(technique="TLA+ refinement (plan-level limit in bytes, forward / backward file scan, bufferMeta bookkeeping, trimResultsToLimit after trimResultsToRange vs first/last N of the unlimited answer) checked by TLC; TLC-enumerated cases replayed into the real DataService",
              text="As C11 with a row limit: TLC enumerates stored contents x range bounds x N in 1..rows+1 x {first, last} and checks that the intended read plan returns the first / last N rows of the unlimited answer; the emitted cases are replayed through DataService.Query and every limited answer must be the prefix / suffix of the real answer of the same query without a limit.",
-             note="Trusted: TLC, the Python concretisation. The read-buffer chunk in which each interval of the first year file lies (it decides the BackwardMetaOverrun deviation) is computed from the concrete interval positions and handed to TLC as a constant. Same bounds as C11."),
+             note="Trusted: TLC, the Python concretisation. The read-buffer chunk in which each interval of the first year file lies (it decides the BackwardMetaOverrun deviation) is computed from the concrete interval positions and handed to TLC with the stored content. Bounds: exhaustive check over 3-4 interval ids, 2 offset classes, all N; replayed cases over 5 interval ids; quick uses one offset class with up to two records of the same time and N <= 3, thorough two offset classes and all N in 1..rows+1."),
  "C13": dict(technique="TLA+ refinement (symbol list / '*' expansion, per-bucket IOPlan, FilterColumns/Project, NumpyMultiDataset.Append vs per-symbol single queries and the projected column set) checked by TLC; TLC-enumerated cases replayed into the real DataService",
              text="TLC enumerates all non-empty subsets of three existing and one missing symbol and '*', all column lists up to length 3 over two data columns and an unknown name (with repetitions), stored contents of the three buckets and five query shapes, and checks that the implementation-shaped multi query equals the per-symbol single queries and keeps exactly the time columns and the requested existing columns; the emitted cases are replayed through DataService.Query: the multi-symbol answer must equal, symbol by symbol, the real answer of the single query, and the projected answer must carry the same rows and values as the unprojected one, restricted to the time columns and the requested columns.",
              note="Trusted: TLC, the Python concretisation. Every case group lives in its own attribute group so that '*' sees exactly the three buckets. Symbols share one schema (different schemas per symbol are outside the statement)."),
@@ -306,10 +306,10 @@ def full_rows(parsed, sym, schema, kind):
 # ------------------------------------------------------------------------------------------------
 # TLC
 # ------------------------------------------------------------------------------------------------
-def tlc_consts(d, mode, kinds, classes, chunks=(0,), sample=None, colmax=2):
+def tlc_consts(d, mode, kinds, classes, chunks=(0,), sample=None, colmax=2, nmax=99):
     q = lambda xs: "{" + ", ".join('"%s"' % x for x in xs) + "}"
     return dict(NI0=d.ni0, NI1=d.ni1, NO=d.no, Dup=d.dup, Kinds=q(kinds), Classes=q(classes), Mode='"%s"' % mode,
-                ChunkCodes="{" + ", ".join(str(x) for x in chunks) + "}", ColMax=colmax, UseSample="TRUE" if sample is not None else "FALSE",
+                ChunkCodes="{" + ", ".join(str(x) for x in chunks) + "}", NMax=nmax, ColMax=colmax, UseSample="TRUE" if sample is not None else "FALSE",
                 Sample="{" + ", ".join(str(x) for x in sorted(sample or [])) + "}", Deviations=DEVS)
 
 
@@ -476,16 +476,17 @@ def run_single(prop, tier):
             tlc(res, "StoreQuery_limit_dup_mc.cfg", tlc_consts(Dims(2, 1, 1, 2), mode, ["variable"], ["intraday"]), inv, 3000)
 
     # ---------------- cases: sampled contents x all queries, emitted by TLC ----------------
-    # limit, quick: one offset class keeps the emitted space small; three interval ids in the first year file
-    # are needed for the chunk structure of the backward scan
-    d = Dims(3, 2, 2, 1) if mode == "range" or not quick else Dims(3, 2, 1, 1)
+    # limit, quick: one offset class with up to two records of the same time and N <= 3 keep the emitted space
+    # small; three interval ids in the first year file are needed for the chunk structure of the backward scan
+    d = Dims(3, 2, 2, 1) if mode == "range" or not quick else Dims(3, 2, 1, 2)
+    nmax = 3 if quick and mode == "limit" else 99
     tfs = QUICK_TFS if quick else [t for t, _ in TIMEFRAMES]
     plan = Plan(prop, tier, rng, d, tfs, nconc=1 if quick else 2, ncontent=2 if quick else 4)
     root = os.path.join(vlib.scratch(), "root_%s" % prop)
     plan.probe(binary, os.path.join(vlib.scratch(), "probe_%s" % prop))
     shutil.rmtree(os.path.join(vlib.scratch(), "probe_%s" % prop), ignore_errors=True)
     codes = sorted(set(it["code"] for it in plan.items))
-    r = tlc(res, "StoreQuery_%s_emit.cfg" % mode, tlc_consts(d, mode, ["variable", "fixed"], ["intraday", "daily"], sample=codes), inv + ["Emit"], 3000)
+    r = tlc(res, "StoreQuery_%s_emit.cfg" % mode, tlc_consts(d, mode, ["variable", "fixed"], ["intraday", "daily"], sample=codes, nmax=nmax), inv + ["Emit"], 3000)
     emitted = group_cases(r["records"].get("CASE", []), st_key)
     res.cov["cases_emitted_by_tlc"] = sum(len(v) for v in emitted.values())
 
@@ -624,7 +625,7 @@ def show_rows(b, tri):
             out.append("unknown row at %d.%09d" % (x[1], x[2]))
         else:
             t = b.T[(x[0], x[1])]
-            out.append("%d.%09d" % (t // NS, t % NS))
+            out.append("%d.%09d%s" % (t // NS, t % NS, "#%d" % x[2] if b.d.dup > 1 else ""))
     return "[" + ", ".join(out) + "]"
 
 
